@@ -4,6 +4,7 @@ use crate::framework::{DynScenario, Erased};
 use std::sync::Arc;
 
 pub mod cache;
+pub mod conc;
 pub mod corrupt;
 pub mod crash;
 pub mod kmt;
@@ -13,7 +14,7 @@ pub mod retry;
 pub mod store;
 
 pub fn all() -> Vec<Box<dyn DynScenario>> {
-    vec![Box::new(Erased(Arc::new(lru::Lru))), Box::new(Erased(Arc::new(cache::Cache))), Box::new(Erased(Arc::new(kmt::Kmt))), Box::new(Erased(Arc::new(store::Store))), Box::new(Erased(Arc::new(crash::Crash))), Box::new(Erased(Arc::new(corrupt::Corrupt))), Box::new(Erased(Arc::new(retry::Retry))), Box::new(Erased(Arc::new(layers::Layers)))]
+    vec![Box::new(Erased(Arc::new(lru::Lru))), Box::new(Erased(Arc::new(cache::Cache))), Box::new(Erased(Arc::new(kmt::Kmt))), Box::new(Erased(Arc::new(store::Store))), Box::new(Erased(Arc::new(crash::Crash))), Box::new(Erased(Arc::new(corrupt::Corrupt))), Box::new(Erased(Arc::new(retry::Retry))), Box::new(Erased(Arc::new(layers::Layers))), Box::new(Erased(Arc::new(conc::Conc)))]
 }
 
 pub fn by_property(id: &str) -> Option<Box<dyn DynScenario>> {
